@@ -50,6 +50,9 @@ out.append('* `C08-c`, `C17-d2` (and the general theme of *when* a waiting playe
 out.append('* `C11-e2`: removes the raise offer from a player who is level with the wager and holds at least the minimum bet but not more than the minimum raise. C11 demands a raise offer only for a stack above the minimum raise; no listed property is violated.')
 out.append('* `C11-e1`: a short all-in lowers the minimum raise, so a player who cannot make a full raise is additionally offered raise. C11 does not forbid the extra offer; carrying the undersized raise out is a C12 violation, and **C12 catches the change** (`undersized-raise/minimum`).')
 out.append('* `C04-e1`: an overflow in the below-the-wager test of `Raise` for levels next to `MinInt64`. The action (raise) was offered, so C04 is not concerned; it is C12\'s "a request below the current wager is refused", and **C12 catches the change** (`below-wager-not-refused/huge`).')
+out.append('* `C04-f1`: the preflop round is skipped when only one seat still has chips after the blinds, although the other seat owes part of the big blind. No betting round takes place, so there is no turn order to get wrong; what is broken is C05\'s "never closed while a player with chips has put in less than the wager to match", and **C05 catches the change** (`closed-early/owes`).')
+out.append('* `C04-f2`: a second posting of the blinds by a seat that has posted *on its own through the per-player method* (`Player(i).PayBlinds()`) is refused half-way through the table operation. On the pinned code that very sequence charges the seat twice: per-player posting followed by the table operation is not a sequence the engine supports (nothing in the repository does it), so the generators do not produce it, and a check that did would alarm on the unchanged tree.')
+out.append('* `C19-f1`: only shows when a table *refuses* the players the regulator assigns to it (the assign callback returns an error). C09/C19/C20 are stated for "tables that follow its instructions"; on the pinned code a refusing table already loses the refused players or makes the dispatch loop spin, so refusals are outside the domain (listed under the assumptions of these checks).')
 out.append('')
 out.append('### 10.3 Changes that keep every property (false-alarm experiment)\n')
 out.append('Twelve sub-agents (two rounds of six) were given the 20 property statements and asked for the opposite of a seeded defect: realistic, non-trivial changes of behaviour or internal structure that keep all properties true (`/verif/benign/b1..b12`: patch and the agent\'s notes). `tools/run_benign.sh` applies each in a scratch worktree and runs the checks of the touched area; **every check must stay silent**.\n')
